@@ -174,17 +174,15 @@ structure Sem where
   keyish : Bool → Bool → Bs → Bool       -- may open the file (first packet of a key frame)
   startish : Bool → Bool → Bs → Bool     -- may open a frame
   strict : Bool                          -- VP8/VP9: frames must open with a start packet and be non-empty
-  panicsOnEmpty : Bool                   -- VP8: Payload[0] without a length test
   pre : Bs                               -- AV1: temporal delimiter put in front of every frame
 
 def vp8Sem : Sem :=
-  { keyish := fun _ _ pl => match pl with | x :: _ => x.toNat % 2 == 0 | [] => false,
-    startish := fun a _ _ => a, strict := true, panicsOnEmpty := true, pre := [] }
+  { keyish := fun _ _ pl => vp8KeyFrameBit pl, startish := fun a _ _ => a, strict := true, pre := [] }
 def vp9Sem : Sem :=
-  { keyish := fun a _ _ => !a, startish := fun _ b' _ => b', strict := true, panicsOnEmpty := false, pre := [] }
+  { keyish := fun a _ _ => !a, startish := fun _ b' _ => b', strict := true, pre := [] }
 def av1Sem : Sem :=
   { keyish := fun a _ pl => a || startsWithSequenceHeader pl, startish := fun _ _ _ => true, strict := false,
-    panicsOnEmpty := false, pre := av1Delimiter }
+    pre := av1Delimiter }
 
 def semOf : Codec → Sem
   | .vp8 => vp8Sem | .vp9 => vp9Sem | .av1 => av1Sem
@@ -193,8 +191,7 @@ def gstep (σ : Sem) (c : Config) (s : W) (p : Pkt) (t : Nat) : Res :=
   match p.desc with
   | .err => .err s
   | .ok a b' pl =>
-    if σ.panicsOnEmpty && pl.isEmpty then .panic
-    else if !s.seenKey && !σ.keyish a b' pl then .ok s
+    if !s.seenKey && !σ.keyish a b' pl then .ok s
     else if σ.strict && s.cur.isEmpty && !σ.startish a b' pl then .ok s
     else if !p.marker then .ok { s with seenKey := true, cur := s.cur ++ pl }
     else if σ.strict && (s.cur ++ pl).isEmpty then .ok { s with seenKey := true, cur := s.cur ++ pl }
@@ -205,12 +202,9 @@ theorem writeVP8_eq (c : Config) (s : W) (p : Pkt) (t : Nat) : writeVP8 c s p t 
   cases p.desc with
   | err => rfl
   | ok a b' pl =>
-    cases pl with
-    | nil => simp [vp8Sem]
-    | cons x xs =>
-      simp only [vp8Sem, List.isEmpty_cons, Bool.and_false, Bool.false_eq_true, if_false, Bool.true_and, List.nil_append]
-      repeat' split
-      all_goals first | rfl | simp
+    simp only [vp8Sem, Bool.true_and, List.nil_append]
+    repeat' split
+    all_goals first | rfl | simp
 
 theorem writeVP9_eq (c : Config) (s : W) (p : Pkt) (t : Nat) : writeVP9 c s p t = gstep vp9Sem c s p t := by
   unfold writeVP9 gstep
@@ -414,7 +408,6 @@ def pktsOf (ts : Nat) : List (Bool × Bool × Bs) → List Pkt
 variable (c : Config)
 
 theorem gstep_accept (σ : Sem) (s : W) (p : Pkt) (t : Nat) (a b' : Bool) (pl : Bs) (hd : p.desc = .ok a b' pl)
-    (h0 : ¬ (σ.panicsOnEmpty && pl.isEmpty) = true)
     (h1 : ¬ (!s.seenKey && !σ.keyish a b' pl) = true)
     (h2 : ¬ (σ.strict && s.cur.isEmpty && !σ.startish a b' pl) = true)
     (hm : p.marker = false) :
@@ -422,10 +415,9 @@ theorem gstep_accept (σ : Sem) (s : W) (p : Pkt) (t : Nat) (a b' : Bool) (pl : 
   unfold gstep
   rw [hd]
   simp only []
-  rw [if_neg h0, if_neg h1, if_neg h2, if_pos (by simp [hm])]
+  rw [if_neg h1, if_neg h2, if_pos (by simp [hm])]
 
 theorem gstep_flush (σ : Sem) (s : W) (p : Pkt) (t : Nat) (a b' : Bool) (pl : Bs) (hd : p.desc = .ok a b' pl)
-    (h0 : ¬ (σ.panicsOnEmpty && pl.isEmpty) = true)
     (h1 : ¬ (!s.seenKey && !σ.keyish a b' pl) = true)
     (h2 : ¬ (σ.strict && s.cur.isEmpty && !σ.startish a b' pl) = true)
     (hm : p.marker = true)
@@ -435,28 +427,20 @@ theorem gstep_flush (σ : Sem) (s : W) (p : Pkt) (t : Nat) (a b' : Bool) (pl : B
   unfold gstep
   rw [hd]
   simp only []
-  rw [if_neg h0, if_neg h1, if_neg h2, if_neg (by simp [hm]), if_neg h3]
+  rw [if_neg h1, if_neg h2, if_neg (by simp [hm]), if_neg h3]
 
 theorem gstep_drop (σ : Sem) (s : W) (p : Pkt) (t : Nat) (a b' : Bool) (pl : Bs) (hd : p.desc = .ok a b' pl)
-    (h0 : ¬ (σ.panicsOnEmpty && pl.isEmpty) = true)
     (h12 : (!s.seenKey && !σ.keyish a b' pl) = true ∨ (σ.strict && s.cur.isEmpty && !σ.startish a b' pl) = true) :
     gstep σ c s p t = .ok s := by
   unfold gstep
   rw [hd]
   simp only []
-  rw [if_neg h0]
   by_cases h1 : (!s.seenKey && !σ.keyish a b' pl) = true
   · rw [if_pos h1]
   · rw [if_neg h1]
     rcases h12 with h | h
     · exact absurd h h1
     · rw [if_pos h]
-
-theorem not_panics (σ : Sem) (pl : Bs) (hp : σ.panicsOnEmpty = true → pl ≠ []) :
-    ¬ (σ.panicsOnEmpty && pl.isEmpty) = true := by
-  intro h
-  simp only [Bool.and_eq_true, List.isEmpty_iff] at h
-  exact hp h.1 h.2
 
 theorem not_drop1 (σ : Sem) (seen : Bool) (a b' : Bool) (pl : Bs)
     (hk : seen = true ∨ σ.keyish a b' pl = true) : ¬ (!seen && !σ.keyish a b' pl) = true := by
@@ -476,19 +460,17 @@ theorem not_drop2 (σ : Sem) (cur : Bs) (a b' : Bool) (pl : Bs)
 
 /-- an accepted packet that does not end the frame -/
 theorem step_accept (s : W) (ts : Nat) (d : Bool × Bool × Bs)
-    (hp : (semOf c.codec).panicsOnEmpty = true → d.2.2 ≠ [])
     (hk : s.seenKey = true ∨ (semOf c.codec).keyish d.1 d.2.1 d.2.2 = true)
     (hs : (semOf c.codec).strict = true → s.cur = [] → (semOf c.codec).startish d.1 d.2.1 d.2.2 = true) :
     ∃ s', writeRTP c s (mkPkt ts false d) = .ok s' ∧ s'.seenKey = true ∧ s'.cur = s.cur ++ d.2.2 ∧ s'.log = s.log := by
   rw [writeRTP_eq]
   rw [if_neg (by simp [mkPkt])]
-  rw [gstep_accept c _ _ _ _ d.1 d.2.1 d.2.2 rfl (not_panics _ _ hp)
+  rw [gstep_accept c _ _ _ _ d.1 d.2.1 d.2.2 rfl
     (not_drop1 _ _ _ _ _ (by simpa using hk)) (not_drop2 _ _ _ _ _ (by simpa using hs)) rfl]
   exact ⟨_, rfl, rfl, by simp, by simp⟩
 
 /-- an accepted packet that ends the frame -/
 theorem step_flush (s : W) (ts : Nat) (d : Bool × Bool × Bs)
-    (hp : (semOf c.codec).panicsOnEmpty = true → d.2.2 ≠ [])
     (hk : s.seenKey = true ∨ (semOf c.codec).keyish d.1 d.2.1 d.2.2 = true)
     (hs : (semOf c.codec).strict = true → s.cur = [] → (semOf c.codec).startish d.1 d.2.1 d.2.2 = true)
     (hne : (semOf c.codec).strict = true → s.cur ++ d.2.2 ≠ []) :
@@ -496,7 +478,7 @@ theorem step_flush (s : W) (ts : Nat) (d : Bool × Bool × Bs)
       proj s'.log = proj s.log ++ [((semOf c.codec).pre ++ (s.cur ++ d.2.2), ts)] := by
   rw [writeRTP_eq]
   rw [if_neg (by simp [mkPkt])]
-  rw [gstep_flush c _ _ _ _ d.1 d.2.1 d.2.2 rfl (not_panics _ _ hp)
+  rw [gstep_flush c _ _ _ _ d.1 d.2.1 d.2.2 rfl
     (not_drop1 _ _ _ _ _ (by simpa using hk)) (not_drop2 _ _ _ _ _ (by simpa using hs)) rfl
     (by
       intro h
@@ -506,14 +488,13 @@ theorem step_flush (s : W) (ts : Nat) (d : Bool × Bool × Bs)
 
 /-- a packet that cannot open the file, before any key frame -/
 theorem step_drop (s : W) (ts : Nat) (m : Bool) (d : Bool × Bool × Bs)
-    (hp : (semOf c.codec).panicsOnEmpty = true → d.2.2 ≠ [])
     (hk : s.seenKey = false) (hcur : s.cur = [])
     (hno : ((semOf c.codec).keyish d.1 d.2.1 d.2.2 &&
             (!(semOf c.codec).strict || (semOf c.codec).startish d.1 d.2.1 d.2.2)) = false) :
     ∃ s', writeRTP c s (mkPkt ts m d) = .ok s' ∧ s'.seenKey = false ∧ s'.cur = [] ∧ s'.log = s.log ∧ s'.out = s.out := by
   rw [writeRTP_eq]
   rw [if_neg (by simp [mkPkt])]
-  rw [gstep_drop c _ _ _ _ d.1 d.2.1 d.2.2 rfl (not_panics _ _ hp)]
+  rw [gstep_drop c _ _ _ _ d.1 d.2.1 d.2.2 rfl]
   · exact ⟨_, rfl, by simp [hk], by simp [hcur], by simp, by simp⟩
   · simp only [withFirst_seenKey, hk, withFirst_cur, hcur]
     cases h1 : (semOf c.codec).keyish d.1 d.2.1 d.2.2
@@ -526,8 +507,7 @@ theorem step_drop (s : W) (ts : Nat) (m : Bool) (d : Bool × Bool × Bs)
 theorem feed_accept (ts : Nat) (ds : List (Bool × Bool × Bs)) (hne : ds ≠ []) (s : W)
     (hkey : s.seenKey = true ∨ ∃ d rest, ds = d :: rest ∧ (semOf c.codec).keyish d.1 d.2.1 d.2.2 = true)
     (hopen : (semOf c.codec).strict = true → s.cur = [] →
-      ∃ d rest, ds = d :: rest ∧ (semOf c.codec).startish d.1 d.2.1 d.2.2 = true ∧ d.2.2 ≠ [])
-    (hp : (semOf c.codec).panicsOnEmpty = true → ∀ d ∈ ds, d.2.2 ≠ []) :
+      ∃ d rest, ds = d :: rest ∧ (semOf c.codec).startish d.1 d.2.1 d.2.2 = true ∧ d.2.2 ≠ []) :
     ∃ s', feedOk c s (pktsOf ts ds) = some s' ∧ s'.seenKey = true ∧ s'.cur = [] ∧
       proj s'.log = proj s.log ++ [((semOf c.codec).pre ++ (s.cur ++ (ds.map (·.2.2)).flatten), ts)] := by
   induction ds generalizing s with
@@ -547,18 +527,16 @@ theorem feed_accept (ts : Nat) (ds : List (Bool × Bool × Bs)) (hne : ds ≠ []
       obtain ⟨d', r', he, _, h⟩ := hopen h1 hc
       injection he with h3 h4; subst h3
       exact h (List.append_eq_nil_iff.mp h2).2
-    have hpd := fun h => hp h d (by simp)
     cases rest with
     | nil =>
-      obtain ⟨s', hw, h1, h2, h3⟩ := step_flush c s ts d hpd hk hs hgrow
+      obtain ⟨s', hw, h1, h2, h3⟩ := step_flush c s ts d hk hs hgrow
       refine ⟨s', ?_, h1, h2, ?_⟩
       · simp [pktsOf, feedOk, hw]
       · simpa using h3
     | cons d' rest' =>
-      obtain ⟨s1, hw, h1, h2, h3⟩ := step_accept c s ts d hpd hk hs
+      obtain ⟨s1, hw, h1, h2, h3⟩ := step_accept c s ts d hk hs
       obtain ⟨s', hf, g1, g2, g3⟩ := ih (by simp) s1 (Or.inl h1)
         (fun hstrict hnil => by rw [h2] at hnil; exact absurd hnil (hgrow hstrict))
-        (fun h x hx => hp h x (by simp [hx]))
       refine ⟨s', ?_, g1, g2, ?_⟩
       · simp only [pktsOf, feedOk, hw]; exact hf
       · rw [g3, h2]; simp [proj, h3]
@@ -567,20 +545,18 @@ theorem feed_accept (ts : Nat) (ds : List (Bool × Bool × Bs)) (hne : ds ≠ []
 theorem feed_drop (ts : Nat) (ds : List (Bool × Bool × Bs)) (s : W)
     (hk : s.seenKey = false) (hcur : s.cur = [])
     (hno : ∀ d ∈ ds, ((semOf c.codec).keyish d.1 d.2.1 d.2.2 &&
-            (!(semOf c.codec).strict || (semOf c.codec).startish d.1 d.2.1 d.2.2)) = false)
-    (hp : (semOf c.codec).panicsOnEmpty = true → ∀ d ∈ ds, d.2.2 ≠ []) :
+            (!(semOf c.codec).strict || (semOf c.codec).startish d.1 d.2.1 d.2.2)) = false) :
     ∃ s', feedOk c s (pktsOf ts ds) = some s' ∧ s'.seenKey = false ∧ s'.cur = [] ∧ s'.log = s.log := by
   induction ds generalizing s with
   | nil => exact ⟨s, rfl, hk, hcur, rfl⟩
   | cons d rest ih =>
-    have hpd := fun h => hp h d (by simp)
     cases rest with
     | nil =>
-      obtain ⟨s', hw, h1, h2, h3, _⟩ := step_drop c s ts true d hpd hk hcur (hno d (by simp))
+      obtain ⟨s', hw, h1, h2, h3, _⟩ := step_drop c s ts true d hk hcur (hno d (by simp))
       exact ⟨s', by simp [pktsOf, feedOk, hw], h1, h2, h3⟩
     | cons d' rest' =>
-      obtain ⟨s1, hw, h1, h2, h3, _⟩ := step_drop c s ts false d hpd hk hcur (hno d (by simp))
-      obtain ⟨s', hf, g1, g2, g3⟩ := ih s1 h1 h2 (fun x hx => hno x (by simp [hx])) (fun h x hx => hp h x (by simp [hx]))
+      obtain ⟨s1, hw, h1, h2, h3, _⟩ := step_drop c s ts false d hk hcur (hno d (by simp))
+      obtain ⟨s', hf, g1, g2, g3⟩ := ih s1 h1 h2 (fun x hx => hno x (by simp [hx]))
       exact ⟨s', by simp only [pktsOf, feedOk, hw]; exact hf, g1, g2, by rw [g3, h3]⟩
 
 /-- a frame as sent: the descriptors of its packets in order -/
@@ -600,7 +576,6 @@ def Frame.bytes (σ : Sem) (f : Frame) : Bs := σ.pre ++ (f.pkts.map (·.2.2)).f
 structure Frame.WF (σ : Sem) (f : Frame) : Prop where
   nonempty : f.pkts ≠ []
   opens : σ.strict = true → ∃ d rest, f.pkts = d :: rest ∧ σ.startish d.1 d.2.1 d.2.2 = true ∧ d.2.2 ≠ []
-  payloads : σ.panicsOnEmpty = true → ∀ d ∈ f.pkts, d.2.2 ≠ []
   noLateKey : f.key σ = false →
     ∀ d ∈ f.pkts, (σ.keyish d.1 d.2.1 d.2.2 && (!σ.strict || σ.startish d.1 d.2.1 d.2.2)) = false
 
@@ -630,7 +605,7 @@ theorem feed_stream (fs : List Frame) (hwf : ∀ f ∈ fs, Frame.WF (semOf c.cod
           cases hp : f.pkts with
           | nil => rw [hp] at h; cases h
           | cons d rest => rw [hp] at h; exact ⟨d, rest, rfl, h⟩
-      obtain ⟨s1, hf, h1, h2, h3⟩ := feed_accept c f.ts f.pkts wf.nonempty s hkey (fun h _ => wf.opens h) wf.payloads
+      obtain ⟨s1, hf, h1, h2, h3⟩ := feed_accept c f.ts f.pkts wf.nonempty s hkey (fun h _ => wf.opens h)
       obtain ⟨s', hf', g1, g2⟩ := ih hrest s1 h2
       refine ⟨s', ?_, g1, ?_⟩
       · simp only [hf, Option.bind_some]; exact hf'
@@ -652,7 +627,7 @@ theorem feed_stream (fs : List Frame) (hwf : ∀ f ∈ fs, Frame.WF (semOf c.cod
         cases h : f.key (semOf c.codec) with
         | false => rfl
         | true => exact absurd (Or.inr h) hacc
-      obtain ⟨s1, hf, h1, h2, h3⟩ := feed_drop c f.ts f.pkts s hk hcur (wf.noLateKey hnk) wf.payloads
+      obtain ⟨s1, hf, h1, h2, h3⟩ := feed_drop c f.ts f.pkts s hk hcur (wf.noLateKey hnk)
       obtain ⟨s', hf', g1, g2⟩ := ih hrest s1 h2
       refine ⟨s', ?_, g1, ?_⟩
       · simp only [hf, Option.bind_some]; exact hf'
@@ -689,24 +664,43 @@ theorem no_key_no_output (ps : List Pkt) (s : W) (hk : s.seenKey = false) (hcur 
         rw [this]
         exact hw _ _
       | ok a b' pl =>
-        by_cases h0 : ((semOf c.codec).panicsOnEmpty && pl.isEmpty) = true
-        · have : gstep (semOf c.codec) c (withFirst s p) p (rtpTimestamp c p.ts (withFirst s p).first) = .panic := by
-            unfold gstep; rw [hdesc]; simp only []; rw [if_pos h0]
-          rw [this]
-          exact ⟨rfl, rfl⟩
-        · have hd : ((semOf c.codec).keyish a b' pl &&
-              (!(semOf c.codec).strict || (semOf c.codec).startish a b' pl)) = false := by
-            rcases hp with h | h
-            · exact absurd h he
-            · rw [hdesc] at h; exact h
-          rw [gstep_drop c _ _ _ _ a b' pl hdesc h0]
-          · exact hw _ _
-          · simp only [withFirst_seenKey, hk, withFirst_cur, hcur]
-            cases h1 : (semOf c.codec).keyish a b' pl
-            · simp
-            · rw [h1] at hd
-              simp only [Bool.true_and, Bool.or_eq_false_iff, Bool.not_eq_false'] at hd
-              simp [hd.1, hd.2]
+        have hd : ((semOf c.codec).keyish a b' pl &&
+            (!(semOf c.codec).strict || (semOf c.codec).startish a b' pl)) = false := by
+          rcases hp with h | h
+          · exact absurd h he
+          · rw [hdesc] at h; exact h
+        rw [gstep_drop c _ _ _ _ a b' pl hdesc]
+        · exact hw _ _
+        · simp only [withFirst_seenKey, hk, withFirst_cur, hcur]
+          cases h1 : (semOf c.codec).keyish a b' pl
+          · simp
+          · rw [h1] at hd
+            simp only [Bool.true_and, Bool.or_eq_false_iff, Bool.not_eq_false'] at hd
+            simp [hd.1, hd.2]
+
+/-! ### the writer never panics -/
+
+theorem gstep_no_panic (σ : Sem) (s : W) (p : Pkt) (t : Nat) : gstep σ c s p t ≠ .panic := by
+  unfold gstep
+  repeat' split
+  all_goals simp
+
+/-- `WriteRTP` never indexes out of range, whatever the codec, the state and the packet -/
+theorem writeRTP_no_panic (s : W) (p : Pkt) : writeRTP c s p ≠ .panic := by
+  rw [writeRTP_eq]
+  split
+  · simp
+  · exact gstep_no_panic c _ _ _ _
+
+theorem runFrom_no_panic (ps : List Pkt) (s : W) (i errs : Nat) : (runFrom c s ps i errs).panicAt = none := by
+  induction ps generalizing s i errs with
+  | nil => rfl
+  | cons p ps ih =>
+    unfold runFrom
+    split
+    · exact ih _ _ _
+    · exact ih _ _ _
+    · rename_i h; exact absurd h (writeRTP_no_panic c s p)
 
 /-! ### the reader never panics and always makes progress (for C37) -/
 
